@@ -224,6 +224,66 @@ def run_edits(ctx, seeds, gens):
         "generic-self": "class A<T extends A<T>> { public constructor() -> A<T> = default; } function main() -> void { A<A<int>> a = null; }",
         "derived-first": "class D extends B { public constructor() -> D { super(); return this; } } class B { public constructor() -> B = default; } function main() -> void { D d = new D(); }",
     }
+    # generic type arguments of every arity against each other, with 'this', null, diamonds and
+    # fresh objects in every typed position (verdicts do not matter here, only that there is one)
+    trng = ctx.rng("typestress")
+    gens = {"Box": ["T"], "Pair": ["A", "B"], "Tri": ["X", "Y", "Z"], "Plain": []}
+
+    def tyname(cls, inside):
+        ps = gens[cls]
+        if not ps:
+            return cls
+        pool = ["int", "string", "Plain", "Box<int>"] + list(gens[inside])
+        k = trng.random()
+        if k < 0.12:
+            return cls                                   # raw use of a generic class
+        if k < 0.22:
+            n = trng.choice([0, 1, 2, 3, 4])             # wrong arity
+        else:
+            n = len(ps)
+        if n == 0:
+            return cls + "<>"
+        return "%s<%s>" % (cls, ", ".join(trng.choice(pool) for _ in range(n)))
+
+    def texpr(inside):
+        k = trng.randrange(7)
+        if k == 0:
+            return "this"
+        if k == 1:
+            return "null"
+        if k == 2:
+            return "new %s()" % tyname(trng.choice(list(gens)), inside)
+        if k == 3:
+            return "this.f0"
+        if k == 4:
+            return "new %s<>()" % trng.choice(["Box", "Pair", "Tri"])
+        if k == 5:
+            return "this.m0()"
+        return "(%s)" % texpr(inside)
+    for ti in range(ctx.n(250, 5000)):
+        parts = []
+        for cls, ps in gens.items():
+            head = "class %s%s {" % (cls, "<%s>" % ", ".join(ps) if ps else "")
+            self_t = "%s%s" % (cls, "<%s>" % ", ".join(ps) if ps else "")
+            body = ["    public constructor() -> %s = default;" % self_t]
+            for mi in range(trng.randint(1, 3)):
+                t = tyname(trng.choice(list(gens)), cls)
+                pos = trng.randrange(4)
+                if mi == 0:
+                    body.insert(0, "    public %s f0;" % t)
+                if pos == 0:
+                    body.append("    public function m%d() -> %s { return %s; }" % (mi, t, texpr(cls)))
+                elif pos == 1:
+                    body.append("    public function m%d() -> int { %s x = %s; return 1; }" % (mi, t, texpr(cls)))
+                elif pos == 2:
+                    body.append("    public function m%d() -> int { %s x = null; x = %s; return 1; }" % (mi, t, texpr(cls)))
+                else:
+                    body.append("    public function m%d(%s p) -> int { return this.m%d(%s); }" % (mi, t, mi, texpr(cls)))
+            parts.append(head + "\n" + "\n".join(body) + "\n}")
+        trng.shuffle(parts)
+        shapes["typestress-%d" % ti] = "\n".join(parts) + "\nfunction main() -> void { Box<int> b = new Box<int>(); }\n"
+    shapes["missing-import"] = "import nowhere.Thing;\nfunction main() -> void { }\n"
+    shapes["bad-token-after-import"] = "import bloch.lang.Object;\nfunction main() -> void { int x = ; }\n"
     # inheritance cycles with tails leading into them, under many names (class registries are hash
     # maps: which class is visited first depends on the names)
     crng = ctx.rng("cycles")
@@ -330,7 +390,8 @@ def run_cli_shapes(ctx, rejected, shapes):
     # loader-level shapes (the analyse harness bypasses ModuleLoader): no execution involved
     fd = build.build("frontdump", "asan")
     for k in ("shots-huge", "empty", "only-comment", "nul", "bom", "class-cycle", "self-extends",
-              "dup-class", "int-huge", "array-huge", "derived-first", "generic-self"):
+              "dup-class", "int-huge", "array-huge", "derived-first", "generic-self", "unterminated-string",
+              "missing-import", "bad-token-after-import", "deep-parens"):
         d = core.scratch_dir("ld")
         pth = os.path.join(d, "m.bloch")
         with open(pth, "wb") as f:
@@ -360,6 +421,18 @@ def run_cli_shapes(ctx, rejected, shapes):
                           dict(source=shapes[k], name=k), {"stderr.txt": r.stderr[-6000:]})
         elif any(o.get("error") not in (None, "Lexical", "Parse", "Semantic") for o in outs):
             ctx.violation("diag:category", "shape %s: %r" % (k, outs), dict(source=shapes[k], name=k))
+        else:
+            # the harness repeats the request on the same ModuleLoader: it must stay usable and answer alike
+            loads = [o for o in outs if "attempt" in o]
+            errs = [o for o in outs if "error" in o]
+            if loads and loads[0]["attempt"] == 0:
+                same = len(loads) == 2 and (loads[0]["classes"], loads[0]["functions"]) == (loads[1]["classes"], loads[1]["functions"])
+            else:
+                same = not loads and len(errs) == 2 and errs[0].get("msg") == errs[1].get("msg")
+            ctx.count("loader_reuse_compared")
+            if not same:
+                ctx.violation("front:loader-not-reusable", "shape %s: the same ModuleLoader answered the same "
+                              "request differently the second time: %r" % (k, outs), dict(source=shapes[k], name=k))
         shutil.rmtree(d, ignore_errors=True)
 
     def one(item):
